@@ -904,6 +904,8 @@ def _reads_heap(e):
     for n in ast.walk(e):
         if isinstance(n, ast.Subscript):
             return True
+        if isinstance(n, ast.Call) and not (isinstance(n.func, ast.Attribute) and isinstance(n.func.value, ast.Constant)):
+            return True  # getattr / len / str ... look at the state of their argument
         if isinstance(n, ast.Attribute) and not (isinstance(n.value, ast.Constant) and n.attr in ("join", "format")):
             return True
     return False
@@ -946,14 +948,18 @@ def explain_vars(fn):
                 v = s.targets[0].id
                 if len(stores.get(v, [])) != 1 or v in params or v in nested_names or not _pure(s.value):
                     continue
-                if any(isinstance(x, ast.Name) and (len(stores.get(x.id, [])) > 1 or x.id == v) for x in ast.walk(s.value)):
-                    # an operand that is re-assigned somewhere: only safe when provably not in between; keep it simple
-                    if any(isinstance(x, ast.Name) and x.id != v and len(stores.get(x.id, [])) > 1 for x in ast.walk(s.value)):
-                        continue
+                if any(isinstance(x, ast.Name) and x.id == v for x in ast.walk(s.value)):
+                    continue
                 uses = loads.get(v, [])
                 if not uses:
                     continue
                 rest = lst[i + 1:]
+                # an operand that is assigned again after the definition would change what the uses see
+                opnames = {x.id for x in ast.walk(s.value) if isinstance(x, ast.Name)}
+                if any(isinstance(x, ast.Name) and isinstance(x.ctx, (ast.Store, ast.Del)) and x.id in opnames for r in rest for x in ast.walk(r)):
+                    continue
+                if any(isinstance(x, (ast.FunctionDef, ast.ClassDef, ast.AsyncFunctionDef)) and x.name in opnames for r in rest for x in ast.walk(r)):
+                    continue
                 inside = [u for u in uses if any(_contains(r, u) for r in rest)]
                 if len(inside) != len(uses):
                     continue
